@@ -251,6 +251,9 @@ class ExcelInPython:
 
     def _match(self, lookup_value, lookup_array: List, match_type: int = 0):
         lookup_value_type = int if isinstance(lookup_value, self.EmptyCell) else type(lookup_value)
+        if lookup_value_type in (int, float):
+            # whole and fractional numbers are one kind of key
+            lookup_value_type = (int, float)
 
         match match_type:
             case 0:
